@@ -27,6 +27,7 @@ use std::collections::{BTreeMap, BTreeSet};
 use std::fmt::Write as _;
 use syn::*;
 
+mod inline;
 mod limb;
 mod ops;
 
@@ -1535,10 +1536,13 @@ fn main() {
     let mut defs = String::new();
     let mut report: BTreeMap<String, String> = BTreeMap::new();
     let mut emitted: Vec<(String, String, Vec<String>, bool)> = vec![]; // (ns, fn, param names, per-arm?)
+    let known = inline::load_known();
     for t in TARGETS {
         let path = format!("{}/{}", src, t.file);
         let text = match std::fs::read_to_string(&path) { Ok(s) => s.replace("\r\n", "\n"), Err(e) => { report.insert(format!("{}::<file>", t.file), format!("unreadable: {}", e)); continue; } };
-        let file = match parse_file(&text) { Ok(f) => f, Err(e) => { report.insert(format!("{}::<file>", t.file), format!("parse error: {}", e)); continue; } };
+        let mut file = match parse_file(&text) { Ok(f) => f, Err(e) => { report.insert(format!("{}::<file>", t.file), format!("parse error: {}", e)); continue; } };
+        // added private helpers are inlined into their callers (inline.rs); what was done is part of the report
+        for (k, v) in inline::inline_helpers(&mut file, t.file, &known) { report.insert(k, v); }
         let mut found: BTreeSet<String> = BTreeSet::new();
         let mut impl_traits: BTreeSet<String> = BTreeSet::new();      // traits the type implements in this file (for inherited default methods)
         for it in &file.items {
